@@ -39,6 +39,13 @@ type hopCase struct {
 	Fields    []rig.Field `json:"fields"` // what the client sends besides Host (request, connect) / what the origin answers with (response)
 	Body      string      `json:"body,omitempty"`
 	Chunked   bool        `json:"chunked,omitempty"`
+	// Resp (side "response"): the kind of response the client is sent ("" = the origin's 200 with a body), see
+	// respKinds; Status: its status where the case chooses it (the origin's, the refusing upstream proxy's)
+	Resp   string `json:"resp,omitempty"`
+	Status int    `json:"status,omitempty"`
+	// Handler: the in-process proxy serves through martian's http.Handler (HTTPProxyConfig.TestingHTTPHandler:
+	// proxy_handler.go has its own copy of the response path)
+	Handler bool `json:"handler,omitempty"`
 	// Whole: judge every name the message, the hop or a rule carries, not only the special names of the side:
 	// a field no rule names must arrive as it does without any rule (cases of the "source" family)
 	Whole bool `json:"whole,omitempty"`
@@ -147,6 +154,9 @@ type judge struct {
 	impl  string
 	// base (Whole cases): what the model of the code gives for the same message with an EMPTY rule list
 	base map[string][]string
+	// skipped: the message is of a kind the list does not apply to (a response to a CONNECT): for every name
+	// the list touches the hop must receive what the message carried
+	skipped bool
 }
 
 // same compares the values of name k as the hop received them with an expectation. When a rule respelt
@@ -209,6 +219,9 @@ func (j *judge) run() {
 			continue
 		}
 		ideal, spelt, afterRename := applySpec(j.rules, k, j.pre(k))
+		if j.skipped {
+			ideal, spelt, afterRename = j.pre(k), "", false
+		}
 		got := gotMap[k]
 		class := ""
 		if afterRename {
@@ -218,7 +231,7 @@ func (j *judge) run() {
 		}
 		if sameVals(got, ideal) {
 			j.ctx.Count("hop/" + j.hc.Side + "/as-documented")
-			if spelt != "" && !afterRename && !writtenByLibrary[k] {
+			if spelt != "" && !afterRename && !writtenByLibrary[k] && !j.hc.Handler {
 				for _, f := range j.got.Fields {
 					if strings.EqualFold(f.Name, k) && f.Name != spelt {
 						j.ctx.SpecFail("'%name' respells the field on the forwarded message", class, j.hc, j.impl,
@@ -242,6 +255,11 @@ func (j *judge) run() {
 				j.ctx.SpecFail("each rule does what its syntax says on the forwarded message (names the rules do not control: value the model of the code gives)",
 					class, j.hc, j.impl, fmt.Sprintf("%s [%s]: hop received %q, model %q, documented meaning %q", k, d, got, j.model[k], ideal))
 			}
+			continue
+		}
+		if j.skipped {
+			j.ctx.SpecFail("response rules apply to non-CONNECT responses and to no response to a CONNECT (connect rules to no response at all)",
+				class, j.hc, j.impl, fmt.Sprintf("%s: client received %q, the response carried %q (rules %q, connect rules %q)", k, got, ideal, j.hc.RespRules, j.hc.ConnRules))
 			continue
 		}
 		j.ctx.SpecFail("each rule does what its syntax says on the forwarded message", class, j.hc, j.impl,
@@ -498,6 +516,10 @@ func hopRequest(ctx *core.Ctx, e *hopEnv, hc *hopCase, id string, rules header.H
 // ---- responses ----
 
 func hopResponse(ctx *core.Ctx, e *hopEnv, hc *hopCase, id string, rules header.Headers) {
+	if hc.Resp != "" {
+		hopResponseOfKind(ctx, e, hc, id, rules)
+		return
+	}
 	e.answers.Store(id, hc)
 	defer e.answers.Delete(id)
 	c, err := e.open(hc.Secure)
